@@ -346,6 +346,9 @@ def check_procs(case, ctx):
             if edit:
                 ctx.tag('tessellate-mp:edit-and-retessellate')
             shift = [rng.uniform(1, 3) for _ in range(3)]
+            listed_twice = rng.random() < 0.3
+            if listed_twice:
+                ctx.tag('tessellate-mp:surface-listed-twice')
 
             def run(k):
                 from geomdl import operations
@@ -359,6 +362,8 @@ def check_procs(case, ctx):
                                        ((0.3, 0.3), (0.7, 0.3), (0.7, 0.7), (0.3, 0.7), (0.3, 0.3))])
                 mine[0].trims = [trim_]
                 mine[0].tessellator = tsl_
+                if listed_twice:
+                    mine = [mine[0]] + mine          # the same surface listed twice, distinct surfaces after it
                 ms = multi.SurfaceContainer(*mine)
                 ms.sample_size = n
                 kw = {} if k == 1 else {'num_procs': k}
